@@ -420,6 +420,19 @@ func cmdCheck(args []string) int {
 		}
 		fsum = append(fsum, sum)
 	}
+	if *prop == "C15" {
+		for _, r := range structuralC15(e) {
+			total++
+			byKind["structural"]++
+			structural = append(structural, r.Func+"#"+r.Name)
+			if r.Status == "discharged" {
+				discharged++
+				bySolver["structural"]++
+				continue
+			}
+			violate(r.Func, r.Name, r.Desc+" — "+r.Detail, r.Detail, "", "", false)
+		}
+	}
 	// every open finding of this property must still be observed (otherwise the file is stale: report, do not fail)
 	for i, fd := range findings {
 		if fd.Status == "open" && fd.Property == *prop && !usedFindings[i] {
